@@ -32,7 +32,7 @@ def check_dispatch(ctx):
     fi = ctx.prog.func(INTERP)
     if fi.params()[:4] != ['x', 'y', 'new_x', 'method']:
         raise AnalysisError(f"C13.1: process.interpolate signature changed: {fi.params()}")
-    lits = dispatch_fallthrough(ctx, INTERP, 'method', 'interpolation method', 4)
+    lits = dispatch_fallthrough(ctx, INTERP, 'method', 'interpolation method', list(METHOD_SPECS))
     ctx.check(sorted(lits) == sorted(METHOD_SPECS), 'C13.1', 'the dispatched method names are the four documented ones', f"{lits}", fi.loc(), fi.qualname, 'names')
     L, Ln = sym.sym('L'), sym.sym('Ln')
     x, y, nx = arr_param('x', length=L), arr_param('y', length=L), arr_param('new_x', length=Ln)
